@@ -82,6 +82,12 @@ Terminated == (\A r \in Ranks : pc[r] = "done") /\ UNCHANGED mpiVars
 Next == (\E r \in Ranks : DiscardBefore(r) \/ Sample(r) \/ DiscardAfter(r) \/ Enter1(r) \/ Leave1(r) \/ Enter2(r) \/ Leave2(r) \/ AddAndCallback(r))
         \/ Terminated
 
+\* every rank that can take a step eventually does (ranks are independent processes)
+Fair == \A r \in Ranks : WF_mpiVars(DiscardBefore(r) \/ Sample(r) \/ DiscardAfter(r) \/ Enter1(r) \/ Leave1(r) \/ Enter2(r) \/ Leave2(r) \/ AddAndCallback(r))
+FairSpec == Init /\ [][Next]_mpiVars /\ Fair
+\* no rank hangs: every behaviour ends with all ranks having returned
+Termination == <>[](\A r \in Ranks : pc[r] = "done")
+
 \* ---- C04 / C16 at design level
 \* ranks that have sampled iteration i evaluated disjoint sets of stream positions, all inside the serial run's range
 Disjoint == \A a, b \in Ranks : (a # b /\ it[a] = it[b] /\ pc[a] \notin {"before", "sample"} /\ pc[b] \notin {"before", "sample"})
